@@ -21,3 +21,47 @@ Theorem C03_gen_paren_decision : forall scopes lit_str e allow st,
   g_val o1 = paren_if (allow <? pg_level e) (g_val o2).
 Proof. exact gen_paren_decision. Qed.
 Print Assumptions C03_gen_paren_decision.
+
+(* ---- the emitted value expression as a tree (ghost field g_js of the generator model) ---- *)
+From GE Require Import Model.JsSem Model.Upt Proofs.JsGenProofs Proofs.JsHoistProofs.
+
+(* T1: for EVERY expression form, the tree prints to exactly the text the generator emits *)
+Theorem C03_emitted_text_is_tree : forall scopes lit_str e st,
+  print_js lit_str (g_js (snd (gen_core scopes lit_str e st))) = g_val (snd (gen_core scopes lit_str e st)).
+Proof. exact text_twin. Qed.
+Print Assumptions C03_emitted_text_is_tree.
+
+(* T2: in that tree every operand of a unary / binary operator has a grammar level the
+   ECMAScript production admits at its position, or is parenthesised (nn: integer literals carry
+   no sign, as the scanner produces them) *)
+Theorem C03_emitted_respects_precedence : forall scopes lit_str e st,
+  nn e -> wf_prec (g_js (snd (gen_core scopes lit_str e st))).
+Proof. exact emitted_respects_precedence. Qed.
+Print Assumptions C03_emitted_respects_precedence.
+
+(* T3 + T4: for every expression of the fragment (data fields, scope variables, member / index
+   access, literals, unary and binary operators incl. && || ??, conditionals, string conversion),
+   running the hoisted `var` statements in order from ANY initial values and then evaluating the
+   emitted tree yields the value of the source expression *)
+Theorem C03_compile_correct : forall scopes lit_str ev e n henv0, frag e ->
+  let r := gen_core scopes lit_str e (mk_gst n) in
+  jeval ev (run_hoists ev (hoists_js (fst r)) henv0) (g_js (snd r)) = eval ev e.
+Proof. exact compile_correct. Qed.
+Print Assumptions C03_compile_correct.
+
+(* non-vacuity: a binding with a hoisted condition, a hoisted index and a ?? *)
+Module Witness.
+  Definition e : expr :=
+    ECond (EField (lit "a")) (EIndex (EField (lit "l")) (EBin BNullish (EField (lit "n")) (EField (lit "d"))))
+          (EBin BAdd (EStr (lit "x")) (EMember (EField (lit "o")) (lit "k"))).
+  Definition d : val := VObj [(lit "a", VNum 1); (lit "n", VNull); (lit "d", VNum 1); (lit "l", VArr [VNum 10; VNum 20]);
+                              (lit "o", VObj [(lit "k", VNum 7)])].
+  Definition r := gen_core [] (fun s => s) e (mk_gst 0).
+  Example three_hoists : length (hoists_js (fst r)) = 3%nat.
+  Proof. reflexivity. Qed.
+  Example value : jeval {| e_data := d; e_scopes := [] |} (run_hoists {| e_data := d; e_scopes := [] |} (hoists_js (fst r)) (fun _ => None)) (g_js (snd r))
+                  = Some (VNum 20).
+  Proof. vm_compute. reflexivity. Qed.
+  Example in_fragment : frag e.
+  Proof. repeat constructor. Qed.
+End Witness.
